@@ -145,7 +145,10 @@ def setup_pwait(it, cfg):
 
     o.attrs["_proc"].attrs["wait"] = EnvFunc("proc.wait", pw)
     cached = cfg["cached"]
-    if cached:
+    if cached == "none":
+        o.attrs["_exitcode"] = None          # an earlier wait() found nothing to collect: None is a cached answer too
+        cached = True
+    elif cached:
         cv = it.fresh("cached_exitcode", "Int")
         o.attrs["_exitcode"] = cv
     else:
@@ -160,9 +163,9 @@ def setup_pwait(it, cfg):
 
 REGISTRY.add(Contract(
     "C15", INIT, "Process.wait", setup=setup_pwait, env=ENV,
-    configs=[{"cached": c, "timeout": t} for c in (True, False) for t in ("none", "some")],
+    configs=[{"cached": c, "timeout": t} for c in (True, "none", False) for t in ("none", "some")],
     ensures=[
-        "implies(cached, result == cv and len(log) == 0)",          # later calls return the same cached value
+        "implies(cached, (result is cv or result == cv) and len(log) == 0)",   # later calls return the same cached value
         "implies(not cached, result == native and self._exitcode == native and log == [('proc.wait', t)])",
         "implies(t is not None, t >= 0)",
     ],
